@@ -1,5 +1,5 @@
 use super::{
-    AuxColumnBuilder, Felt, FieldElement, MainTrace, CALL, DYN, END, HALT, JOIN, LOOP, ONE, REPEAT,
+    super::super::trace::NUM_RAND_ROWS, AuxColumnBuilder, Felt, FieldElement, MainTrace, CALL, DYN, END, HALT, JOIN, LOOP, ONE, REPEAT,
     SPLIT, SYSCALL,
 };
 
@@ -13,9 +13,13 @@ pub struct BlockHashTableColumnBuilder {}
 
 impl<E: FieldElement<BaseField = Felt>> AuxColumnBuilder<E> for BlockHashTableColumnBuilder {
     fn init_responses(&self, main_trace: &MainTrace, alphas: &[E]) -> E {
+        // the program hash is in the hasher registers of the END row of the root block and of every
+        // HALT row that follows it; when the executed cycles fill the trace exactly (2^k - 1 cycles
+        // followed by the random row) there is no HALT row, and the END of the root block is the last
+        // row before the random rows
         let row_index = (0..main_trace.num_rows())
             .find(|row| main_trace.get_op_code(*row) == Felt::from(HALT))
-            .expect("execution trace must include at least one occurrence of HALT");
+            .unwrap_or(main_trace.num_rows() - NUM_RAND_ROWS - 1);
         let program_hash = main_trace.decoder_hasher_state_first_half(row_index);
 
         // Computes the initialization value for the block hash table.
